@@ -417,10 +417,9 @@ func init() {
 					return true
 				})
 			}
-			run(gen.TokensSmall, nSmall, "tok_small")
-			run(gen.Tokens, nFull, "tok_full")
 			// --- strata
 			unit := 0
+			_ = run
 			for _, s := range c02strata(c.Thorough()) {
 				unit++
 				if !c.Mine(unit) {
@@ -470,6 +469,44 @@ func init() {
 					}
 				}
 			}
+			// --- BYTE(DOC(k)): every single-byte substitution and insertion of ALL 256 byte
+			// values at every position of every small document in the whitespace-rich styles
+			// (catches classification tables indexed modulo something, e.g. a 64-bit space mask)
+			kb := 3
+			bt := gen.Trees(kb, gen.LeavesSmall, gen.KeysSmall)
+			for n := 1; n <= kb; n++ {
+				for ti, t := range bt[n] {
+					unit++
+					if !c.Mine(unit) {
+						continue
+					}
+					if c.Expired() {
+						r.Exhaustive = false
+						break
+					}
+					for _, style := range []int{1, 2} {
+						if style == 1 && ti%4 != 0 && !c.Thorough() {
+							continue
+						}
+						txt := gen.RenderTo(nil, t, style, nil)
+						mu := make([]byte, 0, len(txt)+1)
+						for pos := 0; pos <= len(txt); pos++ {
+							for b := 0; b < 256; b++ {
+								if pos < len(txt) {
+									mu = append(append(append(mu[:0], txt[:pos]...), byte(b)), txt[pos+1:]...)
+									evalDoc(mu)
+								}
+								mu = append(append(append(mu[:0], txt[:pos]...), byte(b)), txt[pos:]...)
+								evalDoc(mu)
+								r.Count("inputs_bytemut", 2)
+							}
+						}
+					}
+				}
+			}
+			// --- TOK last (the bulk of the work; cut by the internal deadline if the machine is slow)
+			run(gen.Tokens, nFull, "tok_full")
+			run(gen.TokensSmall, nSmall, "tok_small")
 			r.Distinct = int64(len(nontriv))
 			r.Sample(map[string]string{"api": "all", "doc": `[1,"a"`})
 			r.Sample(map[string]string{"api": "all", "doc": `"` + strings.Repeat("a", 32)})
